@@ -39,3 +39,46 @@ Theorem C18_admission : gen_admission = "reject_at_limit".
 Proof. reflexivity. Qed.
 Theorem C18_limit : gen_limit = "required_players".
 Proof. reflexivity. Qed.
+
+(* ---- the validation of game actions (_validate_game_action, _process_game_action) ---- *)
+(* the parameters each game action needs and their types, as the properties state them (C02: source host; target network
+   for ScanNetwork, target host otherwise; the service / the data / the blocked host) *)
+Definition documented_params (t : atype) : option (list (string * string)) :=
+  match t with
+  | ScanNetwork => Some [("source_host", "IP"); ("target_network", "Network")]
+  | FindServices => Some [("source_host", "IP"); ("target_host", "IP")]
+  | FindData => Some [("source_host", "IP"); ("target_host", "IP")]
+  | ExploitService => Some [("source_host", "IP"); ("target_host", "IP"); ("target_service", "Service")]
+  | ExfiltrateData => Some [("source_host", "IP"); ("target_host", "IP"); ("data", "Data")]
+  | BlockIP => Some [("source_host", "IP"); ("target_host", "IP"); ("blocked_host", "IP")]
+  | _ => None
+  end.
+Definition pair_eqb (a b : string * string) : bool := String.eqb (fst a) (fst b) && String.eqb (snd a) (snd b).
+Fixpoint plist_eqb (a b : list (string * string)) : bool :=
+  match a, b with
+  | [], [] => true
+  | x :: ta, y :: tb => pair_eqb x y && plist_eqb ta tb
+  | _, _ => false
+  end.
+Definition required_of (t : atype) : option (list (string * string)) :=
+  match filter (fun x => atype_eqb t (fst x)) gen_required_params with
+  | [x] => Some (snd x)
+  | _ => None
+  end.
+(* every action type has exactly the documented required parameters (game actions) or no entry (join, quit, reset) *)
+Theorem C09_required_params :
+  forallb (fun t => match documented_params t, required_of t with
+                    | Some d, Some r => plist_eqb d r
+                    | None, None => true
+                    | _, _ => false
+                    end) all_atypes = true.
+Proof. vm_compute. reflexivity. Qed.
+(* each required parameter must be present, of its type and hashable; the reason is a text (never None) when one is not *)
+Theorem C09_validation_shape : gen_validation_shape = "isinstance_of_get_hashable_returns_reason_none_when_valid".
+Proof. reflexivity. Qed.
+(* the game handler refuses an agent that has not joined, then an invalid action, and only then counts / plays *)
+Theorem C09_validation_order : gen_validation_order = "member_validate_refuse_then_effects".
+Proof. reflexivity. Qed.
+(* nothing that can raise stands between the guarded parse of the message and the dispatch *)
+Theorem C09_parse_then_dispatch : gen_after_parse = "match_follows_try".
+Proof. reflexivity. Qed.
